@@ -2,16 +2,39 @@ PROPERTY = 'C03'
 CXX = ['-D__TBB_BUILD', '-mwaitpkg', '-mrtm']
 # virtual calls are promoted to compare-and-dispatch over these classes only (any other target = llvm.trap = assertion failure):
 # the coroutine / sleeping-thread classes (resume_task, task_proxy, resume_node, wait_node) cannot occur in the one-thread world
-DEVIRT = ['function_task', 'function_stack_task', 'task_handle_task', 'reference_vertex', 'wait_context_vertex', '_ZN3tbb6detail2d14taskD']
+DEVIRT = ['function_task', 'function_stack_task', 'task_handle_task', 'reference_vertex', 'wait_context_vertex', '_ZN3tbb6detail2d14taskD',
+          'start_for', 'start_reduce', 'start_deterministic_reduce']
 CB = ['--unwind', '10', '--object-bits', '12', '--paths', 'lifo']   # path-wise symbolic execution: every path of the symbolic throw mask is explored and decided separately
+NCF = ['-fno-sanitize=null']   # libstdc++'s hashtable forms &node->field from a null node pointer without accessing it
+CB2 = ['--unwind', '26', '--object-bits', '12', '--paths', 'lifo']
 UNITS = {
   'tg': dict(wrapper='w_tg.cpp', mode='seq', cxxflags=CXX, exceptions=True, prune=True, inline_threshold=225,
              cut=['receive_or_steal_task'], devirt=DEVIRT),
+  'pf': dict(wrapper='w_pf.cpp', mode='seq', cxxflags=CXX, exceptions=True, prune=True, inline_threshold=225,
+             cut=['receive_or_steal_task', 'r114notify_waitersEm'], devirt=DEVIRT),
 }
 HARNESSES = [
-  dict(name='tg_wait', unit='tg', harness='h_tg.c', defines={'SCEN': 1}, scenarios=[{'N': 1, 'REUSE': 0}, {'N': 2, 'REUSE': 1}],
-       cbmc=CB, timeout=600,
+  dict(name='tg_wait', unit='tg', harness='h_tg.c', defines={'SCEN': 1}, scenarios=[{'N': 1, 'REUSE': 0}, {'N': 2, 'REUSE': 1}], scenarios_thorough=[{'N': 1, 'REUSE': 1}, {'N': 2, 'REUSE': 1}, {'N': 3, 'REUSE': 1}, {'N': 4, 'REUSE': 0}],
+       cbmc=CB, timeout=600, thorough_override={'timeout': 3600}, native_cflags=NCF,
        desc='real task_group::run x N + wait() on the real dispatcher loop, symbolic subset of bodies throws', bounds={'tasks': 'N', 'threads': 1}),
+  dict(name='tg_run_and_wait', unit='tg', harness='h_tg.c', defines={'SCEN': 2}, scenarios=[{'N': 1}, {'N': 2}], scenarios_thorough=[{'N': 0}, {'N': 1}, {'N': 2}, {'N': 3}],
+       cbmc=CB, timeout=600, thorough_override={'timeout': 3600}, native_cflags=NCF,
+       desc='real task_group::run x N + run_and_wait(f) (function_stack_task executed without spawn), symbolic subset of the N+1 bodies throws', bounds={'tasks': 'N+1', 'threads': 1}),
+  dict(name='tg_nested', unit='tg', harness='h_tg.c', defines={'SCEN': 3}, scenarios=[{'N': 1, 'CATCH': 1}, {'N': 2, 'CATCH': 0}],
+       scenarios_thorough=[{'N': n, 'CATCH': c} for n in (1, 2, 3) for c in (0, 1)],
+       cbmc=CB, timeout=600, thorough_override={'timeout': 3600}, native_cflags=NCF,
+       desc='nested groups', bounds={'tasks': 'N+2', 'threads': 1}),
+]
+HARNESSES += [
+  dict(name='pfor', unit='pf', harness='h_pf.c', defines={'ALGO': 1}, scenarios=[{'N': 2}, {'N': 3}], scenarios_thorough=[{'N': n} for n in (1, 2, 3, 4, 5, 6)],
+       cbmc=CB2, timeout=900, thorough_override={'timeout': 3600}, native_cflags=NCF,
+       desc='real parallel_for(simple_partitioner) over [0,N) on the real dispatcher loop, symbolic subset of elements throws', bounds={'elements': 'N', 'threads': 1}),
+  dict(name='pdreduce', unit='pf', harness='h_pf.c', defines={'ALGO': 2}, scenarios=[{'N': 2}, {'N': 3}], scenarios_thorough=[{'N': n} for n in (1, 2, 3, 4, 5, 6)],
+       cbmc=CB2, timeout=900, thorough_override={'timeout': 3600}, native_cflags=NCF,
+       desc='real parallel_deterministic_reduce(simple_partitioner) over [0,N) on the real dispatcher loop, symbolic subset of elements throws', bounds={'elements': 'N', 'threads': 1}),
+  dict(name='preduce', unit='pf', harness='h_pf.c', defines={'ALGO': 3}, scenarios=[{'N': 3}], scenarios_thorough=[{'N': n} for n in (1, 2, 3, 4, 5, 6)],
+       cbmc=CB2, timeout=900, thorough_override={'timeout': 3600}, native_cflags=NCF,
+       desc='real parallel_reduce(simple_partitioner) over [0,N) on the real dispatcher loop, symbolic subset of elements throws', bounds={'elements': 'N', 'threads': 1}),
 ]
 OUTSIDE = []
 STUBS = []
